@@ -397,8 +397,10 @@ def tlc(module, cfg=None, env=None, workers=8, timeout=900, simulate=None, depth
 def tlc_ok(res, what):
     """Raise ToolError unless the TLC run completed without any error."""
     if res.error is not None:
+        errs = [l for l in res.out.split("\n") if l.startswith("Error:") or "Exception" in l or "was violated" in l]
+        log("\n".join(errs[:12]))
         log(res.out[-3000:])
-        raise ToolError(f"TLC {what}: {res.error} {res.violated or ''}")
+        raise ToolError(f"TLC {what}: {res.error} {res.violated or ''} {' | '.join(errs[:2])[:300]}")
     return res
 
 
